@@ -135,7 +135,7 @@ def expand_template(scratch, tmpl_path):
                 else:
                     raise AssertionError("bad template directive: " + l)
                 i += 1
-            text, line_no = fn_text(scratch, args["file"], args["fn"], args.get("within"))
+            text, line_no = fn_text(scratch, args["file"], args["fn"], args.get("within"), int(args.get("nth", "0")))
             for feat in strip:
                 text = strip_cfg(text, feat)
             for rx, rep, optional in rewrites:
